@@ -42,7 +42,8 @@ Print Assumptions C02_percent_operators.
 (* int64_t %(uint64_t), int32_t %(uint32_t), int16_t %(uint16_t): the truncated remainder is returned whenever the return type can represent it *)
 Theorem C02_percent_operators_narrow_return_type : Percent_narrow_return_stmt. Proof. exact percent_narrow_return. Qed.
 Print Assumptions C02_percent_operators_narrow_return_type.
-(* narrow-return `%` overloads for every divisor: the truncated remainder converted to the return type (C narrowing) *)
+(* WHAT THE CODE RETURNS (documentation of a finding, not a convention): narrow-return `%` overloads for every divisor give the
+   truncated remainder converted to the return type (C narrowing), which is NOT the remainder when it does not fit *)
 Theorem C02_percent_operators_narrow_return_wrap : Percent_narrow_wrap_stmt. Proof. exact percent_narrow_wrap. Qed.
 Print Assumptions C02_percent_operators_narrow_return_wrap.
 (* double operator%(double): every double l with 1 <= |trunc l| < 2^64; int64_t -> double rounding is a nearest value *)
@@ -114,3 +115,10 @@ Print Assumptions C02_round53_is_ieee_nearest_even.
    chain through int64_t narrows like the direct cast, static_cast<uint64_t>(double) truncates *)
 Theorem C02_cint_casts_are_C_conversions : CInt_casts_stmt. Proof. exact cint_casts. Qed.
 Print Assumptions C02_cint_casts_are_C_conversions.
+
+(* ---- phase 4: the clause "`%` returns r with the sign of n and |r| < |d|" is REFUTED for the overloads whose return type cannot
+   hold every remainder (int64_t %(uint64_t), int32_t %(uint32_t), int16_t %(uint16_t), double %(double)): witnesses with the
+   wrong sign, and a double result equal to the divisor.  Filed as findings (frag/C02.findings.json); the table rows of these
+   overloads state the property's convention under the explicit hypothesis that the remainder is representable. *)
+Theorem C02_percent_narrow_return_refuted : Percent_narrow_return_refuted_stmt. Proof. exact percent_narrow_return_refuted. Qed.
+Print Assumptions C02_percent_narrow_return_refuted.
